@@ -4,8 +4,8 @@ import sys
 from pathlib import Path
 sys.path.insert(0, str(Path(__file__).resolve().parent))
 from lib import core
-from translate import run_translators, REGISTRY
-res = run_translators(list(REGISTRY), core.REPO, core.GENERATED)
+from translate import run_translators, registry
+res = run_translators(registry(), core.REPO, core.GENERATED)
 bad = {k: v for k, v in res.items() if v['status'] != 'ok'}
 for k, v in res.items():
     print(k, v['status'], v['msg'])
